@@ -165,6 +165,8 @@ def check(ctx, case):
         ks = range(case["k0"], case["k1"]) if kind == "tick_text" else case["ks"]
         ctx.begin(case, nontrivial=False)
         ctx.evaluations += len(ks) - 1
+        if kind == "tick_text" and case["k0"] == 0:
+            ctx.add_sample({"kind": "tick_text", "k": 7, "beat": "7/48", "str": str(Beat(7, 48)), "back": str(Beat.from_str(str(Beat(7, 48))))})
         for k in ks:
             ctx.mon("tick_text")
             ctx.digests.add(hash(("tick", k)) & 0xFFFFFFFFFFFFFFFF)
